@@ -35,4 +35,15 @@ CHECKS = {
                 "model; network behaviour and proxies actually working are observed by the stress run only",
         "technique": "Lean 4 proof (inductive invariant indexed by program counter, all thread counts and schedules) + regenerated program tie + stress correspondence",
     },
+    "C16": {
+        "text": "Lean 4 invariant over all operation histories of a model of serviceImpl (objects, mailboxes, removed "
+                "instances): ids unique among live objects, termination hook exactly once per removed instance and never "
+                "for a live one, every message to an identifier no live object holds is answered with an error and "
+                "changes nothing, removed instances' counters are append-only, removal leaves other objects untouched; "
+                "tied to service.go by regenerated lock/map operation sequences and exact differential runs against a "
+                "real server",
+        "note": "trusts the Lean kernel, the flow extractor, the harness' instrumented PingPong objects; sequential histories "
+                "only in the correspondence run",
+        "technique": "Lean 4 proof (invariant by induction over operation histories) + regenerated tie lemmas + differential correspondence",
+    },
 }
